@@ -38,6 +38,7 @@ pub fn run(pid: &str, c: &Case) {
         "C08" => crate::ikprops::c08(c),
         "C16" => c16(c),
         "C10" => c10(c),
+        "C15" => c15(c),
         "C11" => c11(c),
         "C14" => c14(c),
         "C17" => c17(c),
@@ -491,6 +492,53 @@ pub fn c11(c: &Case) {
             if k.kinematic_singularity(q) != stack.kinematic_singularity(q) { bad.push("singularity report differs".into()); }
             let (a, b) = (k.forward_with_joint_poses(q), stack.forward_with_joint_poses(q)); for i in 0..6 { if a[i] != b[i] { bad.push("link poses differ from the stack".into()); } }
             let pr = k.positioned_robot(q); for i in 0..6 { if pr.joints[i].transform != b[i].cast::<f32>() { bad.push("positioned link not at the stack's link pose".into()); } }
+        }
+    }
+    println!("native_cases={}", tried); bad.dedup(); for b in bad.iter().take(5) { println!("diff={}", b); } println!("reproduced={}", !bad.is_empty());
+}
+
+use rs_opw_kinematics::jacobian::Jacobian;
+use nalgebra::Vector6;
+/// C15: the Jacobian (recovered row by row through torques_from_vector) against the geometric one of the independent chain; velocities/torques consistency
+pub fn c15(c: &Case) {
+    let mut bad: Vec<String> = Vec::new(); let mut tried = 0;
+    let (o0, p0) = opw_of(c);
+    let variants: Vec<(Opw, rs_opw_kinematics::parameters::opw_kinematics::Parameters)> = {
+        let mut v = vec![(o0, p0)];
+        let mut o1 = o0; let mut p1 = p0; o1.sign = [-1.0, 1.0, -1.0, -1.0, 1.0, -1.0]; p1.sign_corrections = [-1, 1, -1, -1, 1, -1]; o1.off = [0.1, -0.2, 0.3, 0.0, 0.25, -0.4]; p1.offsets = o1.off; v.push((o1, p1)); v };
+    let axes = [2usize, 1, 1, 2, 1, 2];
+    for (o, p) in variants {
+        let x = euler_iso(&[0.3, -0.5, 0.7], &[0.1, -0.2, 0.3]); let tl = euler_iso(&[-0.2, 0.4, 0.1], &[0.0, 0.05, 0.12]);
+        let bare = OPWKinematics::new(p);
+        let stack = Tool { robot: Arc::new(Base { robot: Arc::new(OPWKinematics::new(p)), base: pose_of(&x) }), tool: pose_of(&tl) };
+        for (wrapped, q) in SEEDS.iter().map(|q| (false, q)).chain(SEEDS.iter().map(|q| (true, q))) {
+            for eps in [1e-7, 1e-6, 1e-5] {
+                tried += 1;
+                let jac = if wrapped { Jacobian::new(&stack, q, eps) } else { Jacobian::new(&bare, q, eps) };
+                let mut jm = [[0.0f64; 6]; 6];
+                for k in 0..6 { let mut e = Vector6::zeros(); e[k] = 1.0; let row = jac.torques_from_vector(&e); for i in 0..6 { jm[k][i] = row[i]; } }
+                // geometric Jacobian from the independent chain (through base and tool when wrapped)
+                let ch = chain(&o, q);
+                let place = |l: &Iso| if wrapped { compose(&x, l) } else { *l };
+                let tcp = if wrapped { compose(&compose(&x, &ch[5]), &tl) } else { ch[5] };
+                let scale = 1.0 + [o.a1, o.a2, o.b, o.c1, o.c2, o.c3, o.c4].iter().map(|v| v.abs()).sum::<f64>();
+                for i in 0..6 {
+                    let li = place(&ch[i]); let z = [li.r[0][axes[i]] * o.sign[i], li.r[1][axes[i]] * o.sign[i], li.r[2][axes[i]] * o.sign[i]];
+                    let lev = [tcp.t[0] - li.t[0], tcp.t[1] - li.t[1], tcp.t[2] - li.t[2]];
+                    let lin = [z[1] * lev[2] - z[2] * lev[1], z[2] * lev[0] - z[0] * lev[2], z[0] * lev[1] - z[1] * lev[0]];
+                    for k in 0..3 {
+                        if (jm[k][i] - lin[k]).abs() > 200.0 * eps * scale + 1e-8 / eps * 1e-7 { bad.push(format!("J[{}][{}] = {} but axis x lever arm gives {} (eps {}, wrapped {})", k, i, jm[k][i], lin[k], eps, wrapped)); }
+                        if (jm[3 + k][i] - z[k]).abs() > 200.0 * eps + 1e-8 / eps * 1e-7 { bad.push(format!("J[{}][{}] = {} but the joint axis gives {} (eps {}, wrapped {})", 3 + k, i, jm[3 + k][i], z[k], eps, wrapped)); }
+                    }
+                }
+                // velocities reproduce the twist through J; isometry- and vector-based entry points agree; torques are J^T F
+                let w = Vector6::new(0.1, -0.2, 0.05, 0.3, 0.1, -0.15);
+                if let Ok(v) = jac.velocities_from_vector(&w) { for k in 0..6 { let r: f64 = (0..6).map(|i| jm[k][i] * v[i]).sum(); if (r - w[k]).abs() > 1e-6 * (1.0 + v.iter().map(|a| a.abs()).sum::<f64>()) { bad.push(format!("J * velocities != twist (component {})", k)); } } }
+                let iso = nalgebra::Isometry3::new(nalgebra::Vector3::new(0.1, -0.2, 0.05), nalgebra::Vector3::new(0.3, 0.1, -0.15));
+                if let (Ok(a), Ok(b)) = (jac.velocities(&iso), jac.velocities_from_vector(&w)) { for i in 0..6 { if (a[i] - b[i]).abs() > 1e-9 * (1.0 + b[i].abs()) { bad.push("isometry- and vector-based velocities differ".into()); } } }
+                let (ta, tb) = (jac.torques(&iso), jac.torques_from_vector(&w)); for i in 0..6 { if (ta[i] - tb[i]).abs() > 1e-9 * (1.0 + tb[i].abs()) { bad.push("isometry- and vector-based torques differ".into()); } let want: f64 = (0..6).map(|k| jm[k][i] * w[k]).sum(); if (tb[i] - want).abs() > 1e-9 * (1.0 + want.abs()) { bad.push("torques != J^T F".into()); } }
+                if let Ok(f) = jac.velocities_fixed(0.1, -0.2, 0.05) { if let Ok(g) = jac.velocities_from_vector(&Vector6::new(0.1, -0.2, 0.05, 0.0, 0.0, 0.0)) { for i in 0..6 { if (f[i] - g[i]).abs() > 1e-9 * (1.0 + g[i].abs()) { bad.push("velocities_fixed differs from the zero-rotation twist".into()); } } } }
+            }
         }
     }
     println!("native_cases={}", tried); bad.dedup(); for b in bad.iter().take(5) { println!("diff={}", b); } println!("reproduced={}", !bad.is_empty());
